@@ -66,6 +66,21 @@ def r1_guarded_reinterpretation(ctx):
                                 ok = True
                                 why = {'guard': 'is::<%s>() == true' % x.targs[0], 'cast_to': to}
             ctx.check(ok, 'unguarded-cast:%s' % f.key, 'Body.data is reinterpreted as *%s only under is::<%s>() (never a reinterpretation of bytes of another type)' % (to, to), s.where(), why)
+    # a typed pointer obtained from the body's own typed accessor (try_content_mut::<T>() is Some) and rebuilt into a Box<T>: the
+    # reinterpretation is the accessor's (checked above), the rebuild must be at the accessor's T
+    for f in fns:
+        for s in f.calls():
+            if s.name != 'std::boxed::Box::from_raw':
+                continue
+            t = f.expr_operand(s.args[0], s.b, 'T')
+            acc = [x for x in walk(t) if x[0] == 'call' and x[1] in (BODY + '::try_content_mut', BODY + '::try_content')]
+            if not acc or any(x[0] == 'field' and x[2] == 'data' for x in walk(t) if x[0] == 'field' and not any(y is x for a_ in acc for y in walk(a_))):
+                continue
+            sites = [c for c in f.calls() if c.name == acc[0][1] and c.b == acc[0][3]]
+            n += 1
+            ctx.touch(f)
+            ctx.check(bool(sites) and sites[0].targs[:1] == s.targs[:1], 'unguarded-cast:%s' % f.key,
+                      'a Box<T> is rebuilt only from the pointer the typed accessor returned for the same T', s.where(), {'accessor': sites and sites[0].targs, 'box': s.targs})
     ctx.floor('reinterpreting casts of Body.data', n, 3)
     fi = ctx.anchor(BODY + '::is')
     if fi:
@@ -203,6 +218,13 @@ def r2_vtables(ctx):
         if ok:
             v = peel(f.expr_operand(bx[0].args[0], bx[0].b, 'T'))
             ok = v[0] == 'arg'
+        if not ok and not vt_targs and not bx:
+            # a constructor that delegates to a sibling constructor (checked in its own right) at the same T, handing on its value
+            rts = [peel(t) for _, t in ret_trees(f)]
+            sib = {g.key for g in ctors if g is not f}
+            dl = [s for s in f.calls() if s.name in sib]
+            ok = len(rts) == 1 and rts[0][0] == 'call' and rts[0][1] in sib and len(dl) == 1 and dl[0].targs[:1] == ['T'] and \
+                bool(rts[0][2]) and peel(rts[0][2][0])[0] == 'arg' and peel(rts[0][2][0])[1] == 1
         ctx.check(ok, 'ctor:%s' % f.key.split('::')[-1], '%s boxes the given T and installs a vtable instantiated at the same T' % short(f.key), f.where(),
                   {'vtable': vt_targs, 'boxed': bx and bx[0].targs})
     # the drop thunk
@@ -240,7 +262,8 @@ def r3_drop_once(ctx):
                 # equivalent: read self.data, then store null into self.data — on every path that rebuilds the Box
                 is_null = lambda v: v is not None and any((x[0] == 'call' and x[1].endswith('null_mut')) or x == ('int', 0) for x in walk(v))
                 n_p = 0
-                good = any(x[0] == 'field' and x[2] == 'data' for x in walk(t))
+                good = any(x[0] == 'field' and x[2] == 'data' for x in walk(t)) or \
+                    any(x[0] == 'call' and x[1] in (BODY + '::try_content_mut', BODY + '::try_content') for x in walk(t))   # (the accessor reads self.data)
                 for path, outcome, decs in fn_paths(ctx, f):
                     if outcome != 'return' or fr[0].b not in path:
                         continue
@@ -381,6 +404,15 @@ def r4_length(ctx):
             agg_ok = False
             for b, t in ret_trees(c):
                 t = peel(t)
+                if t[0] == 'call' and t[1].startswith(BODY + '::new') and t[1] != k and ctx.P.fns.get(t[1]) is not None:
+                    # delegation to a sibling constructor: what that one stores as length, with the actual arguments put in
+                    g2 = ctx.P.fns[t[1]]
+                    for _, t2 in ret_trees(g2):
+                        t2 = peel(t2)
+                        if t2[0] == 'agg' and 'length' in t2[3]:
+                            lv = peel(t2[2][t2[3].index('length')])
+                            if lv[0] == 'arg' and isinstance(lv[1], int) and 1 <= lv[1] <= len(t[2]):
+                                agg_ok = any(x[0] == 'call' and x[1] == B + 'MessageBody::byte_len' for x in walk(t[2][lv[1] - 1]))
                 if t[0] == 'agg' and 'length' in t[3]:
                     agg_ok = any(x[0] == 'call' and x[1] == B + 'MessageBody::byte_len' for x in walk(t[2][t[3].index('length')]))
             ctx.check(len(bl) == 1 and agg_ok, 'declared-length:%s' % k.split('::')[-1], '%s declares the value\'s byte_len() as the body length' % short(k), c.where())
